@@ -400,9 +400,25 @@ func (t *Transport) ChannelsForPeer(p peer.ID) ChannelsForPeer {
 		}
 	}
 
+	// First take a snapshot of the request -> channel map for this peer. Nothing else is locked while
+	// the map's own lock is held: the hooks write the map while holding a channel's lock, so taking a
+	// channel lock in here would invert that order.
+	type trackedRequest struct {
+		requestID graphsync.RequestID
+		isSending bool
+		chid      datatransfer.ChannelID
+	}
+	var tracked []trackedRequest
+	t.requestIDToChannelID.forEach(func(requestID graphsync.RequestID, isSending bool, chid datatransfer.ChannelID) {
+		// if the associated channel ID includes the requested peer
+		if chid.Initiator == p || chid.Responder == p {
+			tracked = append(tracked, trackedRequest{requestID, isSending, chid})
+		}
+	})
+
 	// currentRequest reads the channel's current graphsync request id under the channel's own lock
-	// (it is written under that lock by open, cancel and the incoming-request path). The two locks
-	// are taken one after the other, never nested, so the lock order of the hooks is not affected.
+	// (it is written under that lock by open, cancel and the incoming-request path). The map lock and
+	// the channel lock are taken one after the other, never nested.
 	currentRequest := func(chid datatransfer.ChannelID) (graphsync.RequestID, bool) {
 		t.dtChannelsLk.RLock()
 		ch := t.dtChannels[chid]
@@ -420,29 +436,24 @@ func (t *Transport) ChannelsForPeer(p peer.ID) ChannelsForPeer {
 
 	sending := make(map[datatransfer.ChannelID]ChannelGraphsyncRequests)
 	receiving := make(map[datatransfer.ChannelID]ChannelGraphsyncRequests)
-	// loop through every graphsync request key we're currently tracking
-	t.requestIDToChannelID.forEach(func(requestID graphsync.RequestID, isSending bool, chid datatransfer.ChannelID) {
-		// if the associated channel ID includes the requested peer
-		if chid.Initiator == p || chid.Responder == p {
-			// determine whether the requested peer is one at least one end of the channel
-			// and whether we're receving from that peer or sending to it
-			collection := sending
-			if !isSending {
-				collection = receiving
-			}
-			channelGraphsyncRequests := collection[chid]
-			// finally, determine if the request key matches the current GraphSync key we're tracking for
-			// this channel, indicating it's the current graphsync request
-			if current, ok := currentRequest(chid); ok && current == requestID {
-				channelGraphsyncRequests.Current = requestID
-			} else {
-				// otherwise this id was a previous graphsync request on a channel that was restarted
-				// and it has not been cleaned up yet
-				channelGraphsyncRequests.Previous = append(channelGraphsyncRequests.Previous, requestID)
-			}
-			collection[chid] = channelGraphsyncRequests
+	for _, tr := range tracked {
+		// determine whether we're receving from that peer or sending to it
+		collection := sending
+		if !tr.isSending {
+			collection = receiving
 		}
-	})
+		channelGraphsyncRequests := collection[tr.chid]
+		// finally, determine if the request key matches the current GraphSync key we're tracking for
+		// this channel, indicating it's the current graphsync request
+		if current, ok := currentRequest(tr.chid); ok && current == tr.requestID {
+			channelGraphsyncRequests.Current = tr.requestID
+		} else {
+			// otherwise this id was a previous graphsync request on a channel that was restarted
+			// and it has not been cleaned up yet
+			channelGraphsyncRequests.Previous = append(channelGraphsyncRequests.Previous, tr.requestID)
+		}
+		collection[tr.chid] = channelGraphsyncRequests
+	}
 	return ChannelsForPeer{
 		SendingChannels:   sending,
 		ReceivingChannels: receiving,
